@@ -34,7 +34,8 @@ THEOREMS = [
     "C02.generated_read_swc_rows", "C02.generated_read_swc_invalid", "C02.generated_read_swc_decode", "C02.generated_norm_dispatch",
     "C02.generated_read_swc_sort_ignores_reset",
     "RefineReadFront.read_swc_front_eq", "RefineReadFront.parse_swc_prologue_eq", "C02.generated_names", "C02.generated_read_swc_front",
-    "C02.generated_prologue",
+    "C02.generated_prologue", "RefineReadFront.tree_from_swc_eq", "RefineReadFront.from_eswc_extras_eq", "C02.generated_tree_from_swc",
+    "C02.generated_from_eswc_extras",
 ]
 TRUSTED = ["hand-written recogniser of the SWC line language (Model/SwcText.lean), tested equal to CPython's `re` on generated lines, pinned to the regex strings extracted from io.py (Gen/Consts.lean)"]
 ASSUMPTIONS = ["CPython re / int() / float() / str methods / text decoding / universal newlines", "pandas DataFrame construction from the collected columns"]
@@ -1241,6 +1242,104 @@ class ReadFront(Suite):
         return case["class"] + "/" + ("error" if "error" in r else ("warn" if r["warn"] else "quiet"))
 
 
+TF_EXC = ["ok", "ValueError", "KeyError", "FileNotFoundError", "TypeError", "RuntimeError", "IndexError", "OSError"]
+
+
+class TreeFront(Suite):
+    """`Tree.from_swc` (error wrapping, `source`, what is handed to `from_data_frame`) and the `extra_cols` of `Tree.from_eswc` as GENERATED
+    from the source (driver ops `gtreefromswc`, `gtreefromeswc`) against the real methods with `read_swc` / `from_data_frame` / `from_swc` stubbed"""
+    name = "c02.treefront"
+
+    def cases(self, rng, tier, widen):
+        out = []
+        for kind in ["text", "bytes", "path"]:
+            for rd in TF_EXC:
+                for fdf in (TF_EXC if rd == "ok" else ["ok", "ValueError"]):
+                    out.append({"class": f"{kind}/read-{'ok' if rd == 'ok' else 'raises'}/fdf-{'ok' if fdf == 'ok' else 'raises'}", "kind": kind,
+                                "read": rd, "fdf": fdf, "name": rng.choice(["a.swc", "/tmp/x/b.swc", "../c.swc", "d"]),
+                                "extra": rng.choice(["None", "empty", "two", "one"])})
+        return out
+
+    def run(self, case):
+        import builtins
+        import os
+        from io import BytesIO, StringIO
+
+        from swcgeom.core import tree as tree_mod
+
+        src = {"text": StringIO(""), "bytes": BytesIO(b""), "path": case["name"]}[case["kind"]]
+        seen = {}
+
+        def read_stub(f, **kw):
+            seen["read"] = [f is src, sorted(kw)]
+            if case["read"] != "ok":
+                raise getattr(builtins, case["read"])("stub")
+            return ("DF", "CM")
+
+        def fdf_stub(df, source="", comments=None, **kw):
+            seen["fdf"] = [df, source, comments, sorted(kw)]
+            if case["fdf"] != "ok":
+                raise getattr(builtins, case["fdf"])("stub")
+            return "TREE"
+
+        old_read, old_fdf = tree_mod.read_swc, tree_mod.Tree.__dict__["from_data_frame"]
+        tree_mod.read_swc, tree_mod.Tree.from_data_frame = read_stub, staticmethod(fdf_stub)
+        try:
+            try:
+                r = tree_mod.Tree.from_swc(src, marker=1)
+                real = {"ok": r == "TREE"}
+            except Exception as e:  # noqa: BLE001
+                real = {"error": type(e).__name__, "msg": str(e), "cause": type(e.__cause__).__name__ if e.__cause__ else None}
+        finally:
+            tree_mod.read_swc = old_read
+            tree_mod.Tree.from_data_frame = old_fdf
+        real["seen"] = seen
+        real["abs"] = os.path.abspath(case["name"])
+        # from_eswc: what reaches from_swc
+        xc = {"None": None, "empty": [], "two": ["a", "b"], "one": ["w"]}[case["extra"]]
+        got = {}
+        old_fs = tree_mod.Tree.__dict__["from_swc"]
+        tree_mod.Tree.from_swc = classmethod(lambda cls, f, **kw: got.update(kw) or "T")
+        try:
+            tree_mod.Tree.from_eswc("f.eswc", extra_cols=xc, marker=2)
+        finally:
+            tree_mod.Tree.from_swc = old_fs
+        real["eswc"] = {"extra_cols": list(got.get("extra_cols")), "keys": sorted(got), "caller_list_untouched": xc in (None, [], ["a", "b"], ["w"])}
+        real["xc"] = xc
+        return {"real": real}
+
+    def lines(self, case, res):
+        if "exc" in res:
+            return []
+        r = res["real"]
+        line = f"gtreefromswc kind={case['kind']} name={case['name']} read={case['read']} fdf={case['fdf']}"
+        if "error" in r:
+            if case["read"] != "ok":
+                ok = r["error"] == "ValueError" and r["msg"].startswith("fails to read swc: ") and r["cause"] == case["read"] and "fdf" not in r["seen"]
+                exp = "error ValueError msg=fails to read swc: {swc_file}" if ok else "<the real from_swc did not wrap the exception>"
+            else:
+                exp = f"error {r['error']} msg=stub"
+        else:
+            df, source, comments, kw = r["seen"]["fdf"]
+            ok = r["ok"] and df == "DF" and comments == "CM" and kw == [] and r["seen"]["read"] == [True, ["marker"]]
+            if case["kind"] == "path":
+                ok = ok and source == r["abs"]
+                exp = f"ok source=ABS({case['name']})" if ok else "<the real from_swc handed over something else>"
+            else:
+                exp = f"ok source={source}" if ok else "<the real from_swc handed over something else>"
+        xc = r["xc"]
+        return [(line, exp),
+                (f"gtreefromeswc extra={'None' if xc is None else (','.join(xc) or '_')}", f"extras={','.join(r['eswc']['extra_cols'])}")]
+
+    def oracle(self, case, res):
+        if "exc" in res:
+            return [("treefront-internal-error", f"the harness raised {res['exc']}: {res.get('msg')}")]
+        return []
+
+    def klass(self, case, res):
+        return case["class"] + ("/exc" if "exc" in res else "")
+
+
 # --- files of every size --------------------------------------------------------------------------------------------------------------------
 # "for all texts assembled from the SWC line grammar … for all read options (… encoding)": a text has any number of rows. Whatever reads a
 # file in pieces (a buffer, a block, a sample) has sizes at which its pieces end; files are generated a little beyond every power of two from
@@ -1501,7 +1600,7 @@ class OptionForms(Suite):
         return case["class"] + ("/raised" if isinstance(res, dict) and ("exc" in res or "raised" in res) else "")
 
 
-SUITES = [Read(), Recogniser(), GenLoop(), ReadFront(), OptionForms(), LargeFiles()]
+SUITES = [Read(), Recogniser(), GenLoop(), ReadFront(), TreeFront(), OptionForms(), LargeFiles()]
 TECHNIQUE = "Lean 4 theorems about a line recogniser + fold model of parse_swc (ok ⇔ no invalid line; one row per data line in order; never partial) pinned to the regexes extracted from the source + differential correspondence against CPython re / read_swc + grammar-directed and malformed-stream oracle"
 LEVEL_TEXT = ("Kernel-checked for every list of lines: the model of parse_swc returns ok exactly when no line is invalid, and then exactly one row per data "
               "line in file order with the tokens' values and the comments in order; an invalid line at any position makes the whole read an error. "
